@@ -355,6 +355,8 @@ func (dht *IpfsDHT) getValues(ctx context.Context, key string, stopQuery chan st
 					Val:  val,
 					From: p,
 				}:
+				case <-stopQuery:
+					// The search reached its quorum and no longer reads valCh.
 				case <-ctx.Done():
 					return nil, ctx.Err()
 				}
